@@ -81,6 +81,14 @@ pub fn run(ctx: &mut Ctx) {
             }
         };
         let base = if rng.chance(1, 4) { base.add_salt() } else { base };
+        // some envelopes already have obscured parts (salting must not care)
+        let base = if case % 5 == 0 {
+            let k0 = fresh_key(&mut rng);
+            ctx.count("inputs_with_obscured_parts");
+            gen::obscure_random(&base, &mut rng, 2, &k0)
+        } else {
+            base
+        };
         let before = tree_of(&base);
         let n = env_bytes(&base).len();
         ctx.count(&format!("size_2^{}", (n as f64).log2().floor() as u32));
